@@ -133,7 +133,7 @@ fn params_with_slot(kind: Kind, n: usize, rep: usize) -> Params {
 }
 
 fn run_periods(ctx: &Ctx) -> Report {
-    let reps = ctx.pick(6usize, 30usize);
+    let reps = ctx.pick(25usize, 400usize);
     let mut jobs = Vec::new();
     for kind in ALL_KINDS {
         let nmax = if kind.n_periods() == 0 { 1 } else { 64 };
@@ -179,7 +179,7 @@ fn run_periods(ctx: &Ctx) -> Report {
 }
 
 fn run_sampled_large(ctx: &Ctx) -> Report {
-    let njobs = ctx.pick(220usize, 1100usize);
+    let njobs = ctx.pick(660usize, 8800usize);
     let seed = ctx.seed;
     let jobs: Vec<usize> = (0..njobs).collect();
     par_run(jobs, ctx.threads, move |idx, rep| {
